@@ -464,6 +464,8 @@ class Path:
             return Opaque(f'{name}:any')
         if k == 'str':
             return Opaque(f'{name}:str')
+        if k == 'const':
+            return typ[1]
         if k == 'numstr':
             from .strings import SymStr
             return SymStr(None, name)
